@@ -630,6 +630,11 @@ pub fn check(ctx: &mut Ctx, id: &'static str) {
             }
             ctx.random("ast-documents", 400, 800_000, 30_000_000, |t| gen(t, which), |c, obs| oracle_c12(c, obs, kf1, false));
             ctx.reshrink::<AstCase, _, _>("ast-documents", |c, obs| oracle_c12(c, obs, kf1, false), crate::props::clean::shrink_ast);
+            let kf7 = ctx.is_known("inline-removal-at-line-start-below-blank-line");
+            ctx.require_class("body-line-begins-with-inline-removal");
+            ctx.require_class("unwrapped-body-with-inline-elements");
+            ctx.random("inline-in-bodies", 400, 400_000, 20_000_000, gen_c12_mixed, |c, obs| oracle_c12_mixed(c, obs, kf1, kf7));
+            ctx.reshrink::<AstCase, _, _>("inline-in-bodies", |c, obs| oracle_c12_mixed(c, obs, kf1, kf7), crate::props::clean::shrink_ast);
         }
         Which::C13 => {
             ctx.rule = "cases = block-style AST documents, default strategy only: blank and whitespace-only lines in any number around blocks, nesting in pending / skip / unregistered parents, multi-byte lines, with / without final newline, 3 indentation units. Oracle: (1) non-blank output lines == surviving non-blank input lines byte for byte in order; (2) for every removed block that is a single element, has surviving non-blank lines before and after and b / a blank lines directly around it: exactly a+b-[a>0 and b>0] blank lines remain between its neighbours. Exhaustive grid (b,a) in 0..4 x 4x4 blank styles x indent x content x pending parent x position x final newline. Non-trivial = a removed block with a+b > 0 or nested in a pending parent.".into();
@@ -664,7 +669,16 @@ fn dispatch(id: &str, c: &AstCase, obs: &mut Obs, kf1: bool) -> Verdict {
     }
 }
 
-pub fn replay(id: &str, _sub: &str, case: &Value, obs: &mut Obs) -> Result<Verdict, String> {
+pub fn replay(id: &str, sub: &str, case: &Value, obs: &mut Obs) -> Result<Verdict, String> {
+    if id == "C12" && sub == "inline-in-bodies" {
+        let known = load_known("C12");
+        let kf1 = known.iter().any(|k| k.signature == "first-line-indented-ready-tag");
+        let kf7 = known.iter().any(|k| k.signature == "inline-removal-at-line-start-below-blank-line");
+        return replay_case::<AstCase, _>(case, obs, |c, obs| {
+            obs.eval();
+            oracle_c12_mixed(c, obs, kf1, kf7)
+        });
+    }
     let kf1 = !load_known(id).is_empty();
     replay_case::<AstCase, _>(case, obs, |c, obs| {
         obs.eval();
@@ -673,6 +687,219 @@ pub fn replay(id: &str, _sub: &str, case: &Value, obs: &mut Obs) -> Result<Verdi
 }
 
 /// replay without known-finding exclusions (used for the witnesses of known findings)
-pub fn replay_strict(id: &str, _sub: &str, case: &Value, obs: &mut Obs) -> Result<Verdict, String> {
+pub fn replay_strict(id: &str, sub: &str, case: &Value, obs: &mut Obs) -> Result<Verdict, String> {
+    if id == "C12" && sub == "inline-in-bodies" {
+        return replay_case::<AstCase, _>(case, obs, |c, obs| oracle_c12_mixed(c, obs, false, false));
+    }
     replay_case::<AstCase, _>(case, obs, |c, obs| dispatch(id, c, obs, false))
+}
+
+// ---- C12 on documents with inline elements inside unwrapped bodies ---------------------------------------------------
+
+pub fn opts_c12_mixed() -> Opts {
+    let mut o = opts(Which::C12);
+    o.inline = true;
+    o.shared_pct = 8;
+    o.unwrap_pct = 60;
+    o.tags_on_wrappers = false;
+    o.unwrap_tags_shared = false;
+    o.adjacent_pct = 40;
+    o
+}
+
+pub fn gen_c12_mixed(t: &mut Tape) -> AstCase {
+    let o = opts_c12_mixed();
+    let (doc, spell) = astgen::gen_doc(t, &o);
+    let mut cfg = astgen::gen_acfg(t);
+    if t.chance(70) {
+        cfg.now_idx = 3 + t.below(2);
+        cfg.targets = 7;
+    }
+    AstCase { doc, spell, cfg }
+}
+
+/// C12 where lines may be partly removed (inline elements): the text after removal is split into lines, every
+/// non-blank line that starts inside an unwrapped body must show the by-construction dedent.
+pub fn oracle_c12_mixed(c: &AstCase, obs: &mut Obs, kf1: bool, kf7: bool) -> Verdict {
+    let r = astgen::render(&c.doc, &c.spell);
+    if let Err(why) = astgen::in_domain(&r, &opts_c12_mixed().domain()) {
+        obs.excluded(why);
+        return Verdict::Pass;
+    }
+    let cfg = c.cfg.to_cfg(&c.spell);
+    let tr = astgen::truth(&r, &c.cfg);
+    if tr.undefined {
+        obs.excluded("ready-unwrap-with-shared-tag-lines");
+        return Verdict::Pass;
+    }
+    if refmodel::ref_tags(&r.src, &c.spell.ds, &c.spell.de).len() != 2 * r.elems.len() {
+        obs.excluded("rendering-does-not-tokenize-as-intended");
+        return Verdict::Pass;
+    }
+    let src = &r.src;
+    let sb = src.as_bytes();
+    let n_lines = r.lines.len();
+    let line_of_off = |off: usize| -> usize {
+        match r.lines.binary_search_by(|(s, e)| if off < *s { std::cmp::Ordering::Greater } else if off > *e { std::cmp::Ordering::Less } else { std::cmp::Ordering::Equal }) {
+            Ok(i) => i,
+            Err(i) => i.min(n_lines.saturating_sub(1)),
+        }
+    };
+    let src_line = |l: usize| &src[r.lines[l].0..r.lines[l].1];
+    // unwrapped elements: (tag column t, dedent d, first body line, last body line)
+    let mut blocks: Vec<(usize, usize, usize, usize)> = vec![];
+    let mut ambiguous_nested = false;
+    let mut bound = vec![0usize; n_lines];
+    for (i, e) in r.elems.iter().enumerate() {
+        if tr.decisions[i] != Decision::Ready {
+            continue;
+        }
+        if let Extent::Parts(..) = tr.extents[i] {
+            if !tr.keep[e.open.0.saturating_sub(0)] && e.open.0 > 0 && false {
+                continue;
+            }
+            // inside a removed region?
+            let mut p = e.parent;
+            let mut gone = false;
+            while let Some(q) = p {
+                if tr.decisions[q] == Decision::Ready && matches!(tr.extents[q], Extent::Whole(_)) {
+                    gone = true;
+                }
+                p = r.elems[q].parent;
+            }
+            if gone {
+                continue;
+            }
+            let t = lead(src_line(e.open_line));
+            if e.close_line - e.open_line - 1 <= 2 {
+                continue; // no inner line
+            }
+            let lf = e.open_line + 2;
+            let f_src = lead(src_line(lf));
+            // what the first inner line looks like after removal: the kept bytes from its start up to the next kept line break
+            let ls = r.lines[lf].0;
+            let mut first_r: Vec<u8> = vec![];
+            for k in ls..sb.len() {
+                if tr.keep[k] {
+                    if sb[k] == b'\n' {
+                        break;
+                    }
+                    first_r.push(sb[k]);
+                }
+            }
+            let kl = String::from_utf8_lossy(&first_r).to_string();
+            if is_blank(&kl) && !kl.is_empty() && kl.len() != f_src {
+                obs.excluded("first-inner-line-whitespace-only");
+                return Verdict::Pass;
+            }
+            if is_blank(src_line(lf)) && !src_line(lf).is_empty() {
+                obs.excluded("first-inner-line-whitespace-only");
+                return Verdict::Pass;
+            }
+            if lead(&kl) != f_src {
+                obs.excluded("ambiguous-first-inner-indent(removed-region-at-its-start)");
+                return Verdict::Pass;
+            }
+            let d = f_src.saturating_sub(t);
+            if t < bound[e.open_line] {
+                ambiguous_nested = true;
+            }
+            for b in bound.iter_mut().take(e.close_line - 1).skip(e.open_line + 2) {
+                *b = (*b).max(t + d);
+            }
+            blocks.push((t, d, e.open_line + 2, e.close_line - 2));
+        }
+    }
+    if ambiguous_nested {
+        obs.excluded("ambiguous-nested-dedent");
+        return Verdict::Pass;
+    }
+    // text after removal, with the source offset of every byte
+    let mut rb: Vec<u8> = vec![];
+    let mut ro: Vec<usize> = vec![];
+    for (k, b) in sb.iter().enumerate() {
+        if tr.keep[k] {
+            rb.push(*b);
+            ro.push(k);
+        }
+    }
+    let rtext = String::from_utf8_lossy(&rb).to_string();
+    // expected non-blank lines
+    let mut exp: Vec<(String, bool)> = vec![]; // (text, indentation asserted?)
+    let mut pos = 0usize;
+    let mut prev_blank = false;
+    let mut first_nonblank_seen = false;
+    let kf1_hit = kf1 && kf1_signature(&r, &tr);
+    let mut nt = false;
+    for line in rtext.split('\n') {
+        let start = pos;
+        pos += line.len() + 1;
+        if is_blank(line) {
+            prev_blank = true;
+            continue;
+        }
+        let first_off = ro[start];
+        let l_src = line_of_off(first_off);
+        let mut text = line.to_string();
+        let li = lead(line);
+        let mut assert_indent = true;
+        // leading blanks that are not the source line's own leading blanks: not asserted
+        let src_lead = lead(src_line(l_src));
+        let starts_at_line_start = first_off == r.lines[l_src].0;
+        if !starts_at_line_start || li != src_lead {
+            assert_indent = false;
+        }
+        // C12 speaks about the lines of unwrapped bodies only
+        if !blocks.iter().any(|(_, _, a, b)| l_src >= *a && l_src <= *b) {
+            assert_indent = false;
+        }
+        // KF7: the line begins (after its indentation) with a removed region and the line above is blank after removal
+        let after_indent = r.lines[l_src].0 + src_lead;
+        let begins_with_removed = after_indent < r.lines[l_src].1 && !tr.keep[after_indent];
+        if begins_with_removed && prev_blank {
+            if kf7 {
+                assert_indent = false;
+                obs.excluded("KF7:inline-removal-at-line-start-below-blank-line(indentation of that line not asserted)");
+            }
+        }
+        if kf1_hit && !first_nonblank_seen && !tr.keep[0.max(r.lines[0].0 + lead(src_line(0))).min(sb.len() - 1)] {
+            assert_indent = false;
+        }
+        first_nonblank_seen = true;
+        let mut ds: Vec<(usize, usize)> = blocks.iter().filter(|(_, _, a, b)| l_src >= *a && l_src <= *b).map(|(t, d, _, _)| (*t, *d)).collect();
+        ds.sort_by(|a, b| b.0.cmp(&a.0));
+        for (t, d) in &ds {
+            let rm = li.saturating_sub(*t).min(*d);
+            if rm > 0 {
+                let cut = (*t).min(text.len());
+                let end = (cut + rm).min(lead(&text).max(cut));
+                if end > cut {
+                    text.replace_range(cut..end, "");
+                }
+                if *d > 0 && (li < t + d || li <= *t) {
+                    nt = true;
+                }
+            }
+        }
+        if !ds.is_empty() && begins_with_removed {
+            obs.class("body-line-begins-with-inline-removal");
+        }
+        exp.push((text, assert_indent));
+        prev_blank = false;
+    }
+    let out = match call_clean(src, &cfg) {
+        Ok(o) => o,
+        Err(p) => vfail!("clean panicked: {p}\n  src = {:?}", src),
+    };
+    let got: Vec<&str> = out.split('\n').filter(|l| !is_blank(l)).collect();
+    let same = exp.len() == got.len() && exp.iter().zip(got.iter()).all(|((e, strict), g)| if *strict { e == g } else { e.trim_start_matches([' ', '\t']) == g.trim_start_matches([' ', '\t']) });
+    if !same {
+        let k = exp.iter().zip(got.iter()).take_while(|((e, strict), g)| if *strict { e == *g } else { e.trim_start_matches([' ', '\t']) == g.trim_start_matches([' ', '\t']) }).count();
+        vfail!("non-blank output line {k} is {:?}, expected {:?} (lines inside an unwrapped body move left by min(first inner indent - tag indent, own indent - tag indent); everything else keeps its text){}", got.get(k), exp.get(k).map(|e| &e.0), show(src, &out));
+    }
+    if nt || (!blocks.is_empty() && r.elems.iter().any(|e| e.inline)) {
+        obs.class("unwrapped-body-with-inline-elements");
+        obs.nontrivial(c, || json!({"src": src, "out": out}));
+    }
+    Verdict::Pass
 }
